@@ -98,6 +98,13 @@ Section Algo.
     exists l1, mid, l3. split; [exact HL|]. split; [exact Hmid|].
     intros b' db' Hb' Hd' Hin'. specialize (Hmid _ Hin'). specialize (Hall b' db' Hb' Hd' ltac:(lia)). lia.
   Qed.
+  (** Bucket 0's dummy is the key 0, below every regular key: it is the head of the list ([init] allocates it with key 0). *)
+  Lemma p_bucket0_dummy_is_least : dum 0 = Some 0 /\ forall h, 0 <= h < 2 ^ 64 -> exists v, reg h = Some v /\ 0 < v.
+  Proof.
+    split; [rewrite Hdum by lia; vm_compute; reflexivity|]. intros h Hh. exists (so_regular h). split; [apply Hreg; assumption|].
+    pose proof (so_regular_range h). pose proof (so_regular_odd h) as Ho.
+    destruct (Z.eq_dec (so_regular h) 0) as [E|]; [rewrite E in Ho; discriminate|lia].
+  Qed.
 End Algo.
 
 (** ** Statements that do not depend on the reversal functor *)
